@@ -664,6 +664,9 @@ func (s *Spec) Walk(ctx context.Context, st *State, pendings []interface{}, c *C
 			if st.NodeName == "error" {
 				// We're already at an error.
 			} else {
+				// Don't write into the given state's bindings
+				// (on the first step they are the caller's).
+				st = st.Copy()
 				errorBs, _ := st.Bs.Extendm("error", err.Error(),
 					"lastNode", st.NodeName,
 					"lastBindings", st.Bs.Copy())
